@@ -80,6 +80,8 @@ pub fn documents(tier: Tier) -> Vec<A> {
     //     text with U+0085 / U+2028 (not line ends in XML 1.0)
     out.push(A::doc(vec![A::el(X, "\u{3b1}\u{3b2}").decl("\u{e9}", X).attr(X, "\u{4e2d}", "\u{3b1}").attr("", "a-b.c", "1").child(A::pi("\u{e9}_1", Some("\u{3b1} ?> x".replace("?>", "? >").as_str()))).child(A::el("", "\u{10000}x").child(A::text("\u{85}\u{2028}")))]));
     out.push(A::doc(vec![A::comment("<a>&amp;]]>"), A::el("", "a").child(A::comment("- -\n<")).child(A::pi("pi", Some("<?x? >&\n"))).child(A::text("x")), A::pi("pi", Some("]]>"))]));
+    // 3d. characters that windows-1252 keeps in 0x80..=0x9F (euro sign, curly quotes, dashes, trade mark)
+    out.push(A::doc(vec![A::el("", "a").attr("", "k", "\u{20ac}\u{201c}\u{2122}").child(A::text("\u{2013}\u{e9}\u{20ac}x\u{178}"))]));
     // 4. xml:id and xml:space
     out.push(A::doc(vec![A::el("", "a").attr(XML_NS, "id", "i").child(A::el("", "b").attr(XML_NS, "id", "j k").attr(XML_NS, "space", "preserve"))]));
     out.push(A::doc(vec![A::el("", "a").attr("", "id", " x  y ").attr(XML_NS, "id", "a b")]));
@@ -140,7 +142,7 @@ pub fn eval_case(case: &Case, st: &mut Stats, tree: bool, spans: bool) -> Vec<Fa
     if r.entry == Entry::ParseFragment && r.has_prolog {
         return fails; // a fragment has no XML declaration
     }
-    if matches!(r.entry, Entry::BytesLatin1 | Entry::BytesWindows1252) && !latin1_safe(&r.text) {
+    if r.entry == Entry::BytesLatin1 && !latin1_safe(&r.text) {
         return fails;
     }
     let label = dev_label(&r, &case.deviations);
@@ -360,6 +362,36 @@ pub fn run_generic(prop: &'static str, tier: Tier, tree: bool, spans: bool) -> i
             }
         }
     }
+    // declared 8-bit encodings, exhaustively: every byte 0x80..=0xFF as the text and the attribute value of a
+    // document declared windows-1252 must read as the character the WHATWG windows-1252 index gives it; under the
+    // ISO-8859-1 label every byte 0xA0..=0xFF must read as the code point of the same number (for 0x80..=0x9F the
+    // two standards differ, so that label carries no expectation there)
+    if tree {
+        for (label, lo) in [("windows-1252", 0x80u32), ("ISO-8859-1", 0xA0u32), ("iso-8859-1", 0xA0), ("latin1", 0xA0)] {
+            for b in lo..=0xFF {
+                let mut bytes = format!("<?xml version=\"1.0\" encoding=\"{}\"?><a k=\"", label).into_bytes();
+                bytes.push(b as u8);
+                bytes.extend_from_slice(b"\">x");
+                bytes.push(b as u8);
+                bytes.extend_from_slice(b"</a>");
+                let want = if label == "windows-1252" { cp1252_char(b as u8) } else { char::from_u32(b).unwrap() };
+                let mut xot = Xot::new();
+                stats.evals += 1;
+                stats.bump("single_byte_cases");
+                let case = json!({"encoding": label, "byte": b});
+                match catch(|| xot.parse_bytes(&bytes)) {
+                    Ok(Ok(n)) => {
+                        let got = read(&xot, n);
+                        let exp = A::doc(vec![A::el("", "a").attr("", "k", &want.to_string()).child(A::text(&format!("x{}", want)))]);
+                        if let Some(d) = diff_class(&norm(&exp), &norm(&got)) {
+                            stats.fail(&case, Fail::new(format!("tree-differs|{}|declared-8-bit-encoding", d), format!("byte {:#04x} under {}: expected {:?}, parsed as {}", b, label, want, got.show())));
+                        }
+                    }
+                    other => stats.fail(&case, Fail::new("rejected|declared-8-bit-encoding", format!("byte {:#04x} under {}: {:?}", b, label, other.map(|r| r.map(|_| ()).map_err(|e| format!("{:?}", e)))))),
+                }
+            }
+        }
+    }
     let need: &[&'static str] = if spans && !tree { &["spellings", "parsed", "spans_checked"] } else { &["spellings", "parsed", "xml_ids_checked"] };
     if let Err(e) = require_nonzero(&stats, need) {
         eprintln!("MACHINERY: {}", e);
@@ -369,7 +401,7 @@ pub fn run_generic(prop: &'static str, tier: Tier, tree: bool, spans: bool) -> i
     let mut cov = json!({
         "evaluations": stats.evals,
         "distinct_nontrivial": total_cases,
-        "rule": format!("{} abstract documents (sharp characters in text and attribute values, structure with comments / PIs / top-level items, namespace layouts with shadowing, undeclaration, synonymous prefixes and a URI containing '&', xml:id / xml:space) x every spelling with at most {} deviations (3 for the small documents) from the default spelling over the renderer's choice points (character: literal / entity / decimal / hex / CDATA; line ends LF / CR / CRLF; attribute white space; quote style; in-tag white space; declaration / attribute interleaving; prefix choice; empty-element form; prolog; top-level white space; PI separator; xml:id padding; entry point parse / parse_with_span_info / parse_fragment / parse_bytes as UTF-8 +- BOM, UTF-16LE/BE, declared ISO-8859-1 / windows-1252); distinct = number of deviation sets (each is a different text or entry point) plus the layouts of the layout sweep (every expressible namespace layout of 1-3 elements in the default spelling of an independent renderer, through parse and parse_fragment)", docs.len(), k),
+        "rule": format!("{} abstract documents (sharp characters in text and attribute values, structure with comments / PIs / top-level items, namespace layouts with shadowing, undeclaration, synonymous prefixes and a URI containing '&', xml:id / xml:space) x every spelling with at most {} deviations (3 for the small documents) from the default spelling over the renderer's choice points (character: literal / entity / decimal / hex / CDATA; line ends LF / CR / CRLF; attribute white space; quote style; in-tag white space; declaration / attribute interleaving; prefix choice; empty-element form; prolog; top-level white space; PI separator; xml:id padding; entry point parse / parse_with_span_info / parse_fragment / parse_bytes as UTF-8 +- BOM, UTF-16LE/BE, declared ISO-8859-1 / windows-1252); every single byte 0x80..=0xFF under a declared windows-1252 (0xA0..=0xFF under ISO-8859-1 labels) as text and attribute value; distinct = number of deviation sets (each is a different text or entry point) plus the layouts of the layout sweep (every expressible namespace layout of 1-3 elements in the default spelling of an independent renderer, through parse and parse_fragment)", docs.len(), k),
         "documents": docs.len(),
         "deviation_levels": {"0": per_level[0], "1": per_level[1], "2": per_level[2], "3": per_level[3], "4": per_level[4]},
     });
